@@ -191,7 +191,7 @@ def parse_stream(text):
     return sessions
 
 
-def gen_sessions(exe, seed, n, steps, kind="exact", rabbit=-1, engine="", procs=12, settle=0):
+def gen_sessions(exe, seed, n, steps, kind="exact", rabbit=-1, engine="", procs=12, settle=0, focus=""):
     """Run n generated sessions split over several broker processes (a broker panic kills only its process)."""
     work = os.path.join(vlib.WORK, "broker-%d" % os.getpid())
     os.makedirs(work, exist_ok=True)
@@ -200,7 +200,7 @@ def gen_sessions(exe, seed, n, steps, kind="exact", rabbit=-1, engine="", procs=
     for first in range(0, n, per):
         cnt = min(per, n - first)
         cmd = [exe, "gen", "-seed", str(seed), "-first", str(first), "-n", str(cnt), "-steps", str(steps), "-kind", kind,
-               "-work", work, "-rabbit", str(rabbit), "-engine", engine, "-settle", str(settle)]
+               "-work", work, "-rabbit", str(rabbit), "-engine", engine, "-settle", str(settle)] + (["-focus", focus] if focus else [])
         jobs.append((first, cnt, subprocess.Popen(cmd, stdout=subprocess.PIPE, stderr=subprocess.PIPE, text=True)))
     sessions = []
     crashes = []
